@@ -175,3 +175,36 @@ def small(x, limit=24):
     if isinstance(x, (list, tuple)):
         return [float(v) if isinstance(v, (int, float)) else v for v in list(x)[:limit]]
     return x
+
+
+def qp_enum_psd(G: np.ndarray, u: np.ndarray, tol: float = 1e-9):
+    """An exact solution of the UNREGULARISED problem  min v^T G v, v >= u  for a positive SEMI-definite G, by
+    enumeration of active sets with least-squares (minimum-norm) solves on the free part.  KKT (sufficient for a convex
+    QP): G_FF v_F + G_FA u_A = 0, v_F >= u_F, (G v)_A >= 0.  Among the candidates that satisfy them up to `tol`
+    (relative) the one of smallest Euclidean norm is returned (any solution serves as v0 in C09's bound);
+    None if no active set qualifies (numerically ambiguous rank)."""
+    m = len(u)
+    gmax = max(float(np.abs(G).max()), 1e-300)
+    best, best_norm = None, np.inf
+    for mask in range(2**m):
+        act = [i for i in range(m) if mask >> i & 1]
+        free = [i for i in range(m) if not mask >> i & 1]
+        v = np.array(u, dtype=np.float64)
+        if free:
+            rhs = -G[np.ix_(free, act)] @ u[act] if act else np.zeros(len(free))
+            GF = G[np.ix_(free, free)]
+            vF = np.linalg.lstsq(GF, rhs, rcond=1e-11)[0]
+            v[free] = vF
+        vs = max(float(np.abs(v).max()), 1e-300)
+        Gv = G @ v
+        if free:
+            if float(np.abs(Gv[free]).max()) > tol * gmax * vs:
+                continue  # inconsistent system: not stationary on the free part
+            if float(np.max(u[free] - v[free])) > tol * vs:
+                continue
+        if act and float(np.max(-Gv[act])) > tol * gmax * vs:
+            continue
+        nv = float(np.linalg.norm(v))
+        if nv < best_norm:
+            best, best_norm = v, nv
+    return best
